@@ -479,6 +479,11 @@ func makeGenbankOriginParser(length int) genbankSubparser {
 			}
 			pars.Line(state, result)
 
+			// This is the ORIGIN field: a block that does not hold the declared
+			// number of residues is an error of the record and must not be
+			// retried as an unknown extra field.
+			state.Clear()
+
 			if err := state.Request(toOriginLength(length)); err != nil {
 				return pars.NewError("not enough bytes in state", state.Position())
 			}
